@@ -181,6 +181,8 @@ fn direct(rng: &mut Rng, rep: &mut CaseReport) {
             }
             limits.push(r + 1);
             limits.push(r + rng.range(2, 500));
+            // "no limit": an Ok result never changes when the limit is raised, however far
+            limits.push(*rng.pick(&[u64::MAX, u64::MAX - offset, u64::MAX / 2, 1 << 40]));
         }
         None => limits.push(rng.range(1, big)),
     }
